@@ -104,6 +104,9 @@ class Builder:
         lw.source_files = [tgt.src] + list(getattr(tgt, 'more_sources', []))
         try:
             text = lw.lower(tgt.extra_params)
+            # local lambdas lifted to C functions (cxx2c.lift_local_lambda): the unit places `builder.lifted` before the function bodies
+            self.lifted = getattr(self, 'lifted', [])
+            self.lifted.extend(getattr(lw, 'lifted', []))
         except Unsupported as e:
             raise Unsupported('%s (%s:%s): %s' % (tgt.name, tgt.rel, astx.src_range(d)[0], e))
         for k, v in lw.fired.items():
@@ -124,7 +127,7 @@ class Builder:
         text = re.sub(r'/\*@(CONTRACT|LOOP\d+)@\*/\n?', '', text) if not keep_markers else text
         self.functions.append({'function': tgt.parent + '::' + tgt.name if tgt.parent else (tgt.this + '::' + tgt.name if tgt.this else tgt.name),
                                'cname': tgt.cname, 'file': tgt.rel, 'lines': [b, e], 'ast_hash': astx.node_hash(d),
-                               'lowered_c_sha': hashlib.sha256(text.encode()).hexdigest()[:16], 'loops': lw.loops,
+                               'lowered_c_sha': hashlib.sha256((text + ''.join(getattr(lw, 'lifted', []))).encode()).hexdigest()[:16], 'loops': lw.loops,
                                'rules_fired': len(lw.fired), 'calls_dropped': len(lw.dropped)})
         self.last = lw
         return text
